@@ -396,11 +396,13 @@ func (a *apiServer) Publish(ctx context.Context, req *client.PublishRequest) (
 	if e := a.ensurePublishPreconditions(req); e != nil {
 		return nil, convertPublishAsyncError(e)
 	}
+	verifGate("api.publish.checked")
 
 	if err := a.resumeStream(ctx, req.Stream, req.Partition); err != nil {
 		a.logger.Errorf("api: Failed to resume stream: %v", err)
 		return nil, err
 	}
+	verifGate("api.publish.resumed")
 
 	if req.AckInbox == "" {
 		req.AckInbox = a.getAckInbox()
@@ -925,6 +927,7 @@ func (a *apiServer) subscribe(ctx context.Context, partition *partition,
 			return nil, status.New(
 				codes.Internal, fmt.Sprintf("Failed to resume stream: %v", err))
 		}
+		verifGate("api.subscribe.resumed")
 
 		// Resuming a partition creates a new one, so we have to get a pointer
 		// to it.
